@@ -8,7 +8,6 @@
    (c) zbase32 (lightning::util::base32, ZBase32 alphabet) and the recoverable-signature container
        of lightning::util::message_signing, the signed digest, and the locator.
    Bytes are N (< 256).  No proofs in this file. *)
-From Coq Require Import String Ascii.
 From TeosModel Require Import Base BtcCodec.
 From TeosModel.Gen Require Consts CryptoParams.
 Local Open Scope N_scope.
@@ -254,24 +253,12 @@ Definition locator (k : bytes) : bytes :=
   firstn (Z.to_nat (CryptoParams.LOCATOR_TO - CryptoParams.LOCATOR_FROM))
          (skipn (Z.to_nat CryptoParams.LOCATOR_FROM) k).
 
-Definition bytes_of_string (s : string) : bytes := map N_of_ascii (list_ascii_of_string s).
-
-(* hex text -> bytes, for the test vectors *)
-Definition hexdigit (a : ascii) : N :=
-  let n := N_of_ascii a in
-  if (48 <=? n) && (n <=? 57) then n - 48
-  else if (97 <=? n) && (n <=? 102) then n - 87
-  else if (65 <=? n) && (n <=? 70) then n - 55 else 0.
-Fixpoint hex_bytes (s : string) : bytes :=
-  match s with
-  | String a (String b r) => (16 * hexdigit a + hexdigit b) :: hex_bytes r
-  | _ => []
-  end.
-
 (* u8 arithmetic *)
 Definition shl8 (x k : N) : N := N.land (N.shiftl x k) 255.
 
-Definition ZBASE_ALPHABET : bytes := bytes_of_string "ybndrfg8ejkmcpqxot1uwisza345h769".
+(* b"ybndrfg8ejkmcpqxot1uwisza345h769" (checked against the text in CryptoVectors.v) *)
+Definition ZBASE_ALPHABET : bytes :=
+  [121; 98; 110; 100; 114; 102; 103; 56; 101; 106; 107; 109; 99; 112; 113; 120; 111; 116; 49; 117; 119; 105; 115; 122; 97; 51; 52; 53; 104; 55; 54; 57].
 
 (* ZBASE_INV_ALPHABET, indexed by to_ascii_uppercase(c).wrapping_sub(b'0') *)
 Definition ZBASE_INV : list Z :=
@@ -368,5 +355,42 @@ Definition sig_decode (s : bytes) : option (N * bytes) :=
   match zb_decode s with Some b => sigrec_decode b | None => None end.
 
 (* the digest that is signed: sha256d("Lightning Signed Message:" ++ msg) *)
-Definition LN_MESSAGE_PREFIX : bytes := bytes_of_string "Lightning Signed Message:".
+(* b"Lightning Signed Message:" (checked against the text in CryptoVectors.v) *)
+Definition LN_MESSAGE_PREFIX : bytes :=
+  [76; 105; 103; 104; 116; 110; 105; 110; 103; 32; 83; 105; 103; 110; 101; 100; 32; 77; 101; 115; 115; 97; 103; 101; 58].
 Definition ln_digest (msg : bytes) : bytes := sha256 (sha256 (LN_MESSAGE_PREFIX ++ msg)).
+
+(* ================================================================================== *)
+(* monitors (boolean form of the property on the implementation's observations) and     *)
+(* the entry points of the extracted driver                                             *)
+(* ================================================================================== *)
+
+(* "the locator of k is its first 16 bytes": stated on the bytes, independently of `locator`
+   above (which follows what the source says today) *)
+Definition mon_locator (k loc : bytes) : bool := bytes_eqb loc (firstn 16 k).
+
+(* two signature texts denote the same 65-byte value (zbase32 decoding ignores letter case, so
+   one value has several spellings) *)
+Definition sig_same_value (s s' : bytes) : bool :=
+  match zb_decode s, zb_decode s' with
+  | Some a, Some b => bytes_eqb a b
+  | _, _ => false
+  end.
+
+(* (msg', sig') is an alteration of the signed (msg, sig) unless the message is unchanged and the
+   text still denotes the same signature value; an alteration must not verify for the signer *)
+Definition mon_sig_mutation (msg msg' sig sig' : bytes) (verifies : bool) : bool :=
+  if bytes_eqb msg msg' && sig_same_value sig sig' then true else negb verifies.
+
+Definition c17_tx_encode := tx_encode.
+Definition c17_tx_deserialize := tx_deserialize.
+Definition c17_tx_wf := tx_wf.
+Definition c17_encrypt := c_encrypt.
+Definition c17_decrypt_r := c_decrypt_r.
+Definition c17_locator := locator.
+Definition c17_ln_digest := ln_digest.
+Definition c17_sig_encode := sig_encode.
+Definition c17_sig_decode := sig_decode.
+Definition c17_mon_locator := mon_locator.
+Definition c17_sig_same_value := sig_same_value.
+Definition c17_mon_sig_mutation := mon_sig_mutation.
